@@ -346,10 +346,14 @@ func (s *Store[K, V]) GetWithSecodary(key K) (V, bool, error) {
 			return v, err
 		}
 
-		// insert to cache
-		result = s.setShardWithoutLock(shard, h, key, v, cost, expire, true)
-		entryCost = cost
-		entryExpire = expire
+		// insert to cache. Same rule as Set: a value whose cost exceeds the cache
+		// size is returned to the caller but never stored (the secondary cache
+		// can outlive a cache that was rebuilt with a smaller size)
+		if cost <= int64(s.cap) {
+			result = s.setShardWithoutLock(shard, h, key, v, cost, expire, true)
+			entryCost = cost
+			entryExpire = expire
+		}
 		return v, err
 	})
 
@@ -1376,10 +1380,14 @@ func (s *LoadingStore[K, V]) Get(ctx context.Context, key K) (V, error) {
 					ok = false
 				}
 				if ok {
-					result = s.setShardWithoutLock(shard, h, key, vs, cost, expire, true)
-					entryCost = cost
-					entryExpire = expire
-					fromSecondary = true
+					// same rule as Set: returned, but not stored when its cost
+					// exceeds the cache size
+					if cost <= int64(s.cap) {
+						result = s.setShardWithoutLock(shard, h, key, vs, cost, expire, true)
+						entryCost = cost
+						entryExpire = expire
+						fromSecondary = true
+					}
 					return Loaded[V]{Value: vs}, nil
 				}
 			}
